@@ -31,6 +31,7 @@ def run(ctx):
     for i, p in enumerate(progs):
         tr = pc.validate_prog(ctx, exe, 2, p, WHAT, n, ctx.seed + i, mult=(1 if i % 2 else 32), pct=(3 if i % 3 == 1 else 0))
     ctx.sample({'programs': progs})
+    pc.stress(ctx, WHAT, 4000 if thorough else 400, 3)
     ctx.sample_trace(tr, 12, skip=80)
     ctx.assumptions += pc.ASSUME + ['one resizer at a time; the destructor runs after every other call returned (documented contract)',
                                     'at pool level the ring fast path is driven through the same racy guard TaskSetBase uses; that every '
